@@ -23,15 +23,27 @@ PROOF_CORE = {
     'C01': 'minimal bounding box and exact overlap slices (None iff no common pixel)',
     'C02': 'results for many positions equal results one at a time (loop independence); exact '
            'common-pixel slices',
+    'C04': 'detect_threshold equals background + nsigma*error pixel-wise; only finite, unmasked '
+           'pixels strictly above the threshold are handed to the labeller; 4-/8-connectivity '
+           'structure',
     'C05': 'every derived attribute equals that of a fresh object after any history (cache '
-           'coherence invariant)',
+           'coherence invariant); reassign / relabel_consecutive have their documented '
+           'set-theoretic effect on every label array',
     'C06': 'never modifies the input segmentation image',
     'C08': 'a sliced catalog is independent of its parent (ownership)',
     'C09': 'no result depends on access order or earlier calls (purity / configuration / reset '
            'invariants)',
     'C10': 'no public call modifies its arguments (frames)',
     'C11': 'boxes with too few good pixels: the documented exclusion rule',
-    'C17': 'centroid_sources acts per source, independent of the other positions',
+    'C13': 'the circular Gaussian equals the elliptical one with equal widths at any rotation, '
+           'sigma- and FWHM-parametrised forms agree, linear in flux, non-negative, centred; '
+           'ImagePSF returns fill_value outside its array and data*flux at its sample points',
+    'C14': '`brightest` keeps the N largest fluxes; find_peaks candidates are the unmasked '
+           'non-border pixels above threshold that equal their neighbourhood maximum',
+    'C17': 'centroid_sources acts per source, independent of the other positions; centroid_com '
+           'ignores masked and non-finite pixel values',
+    'C20': 'the scalar and array forms of the ellipse coordinate transform agree (both equal '
+           'one closed form)',
     'C18': 'leaves the input model and table unchanged; row-order independence of the loop state',
     'C19': 'the encircled-energy interpolators invert each other on the monotone part (maximal '
            'monotone prefix)',
